@@ -1,11 +1,12 @@
 SPEC = {
     "id": "C01",
     "harness": "c01",
-    "n": {"quick": 1000, "thorough": 30000},
-    "harness_args": lambda tier: (["-confirm-ms", "25000", "-shrink-calls", "60"] if tier == "quick"
+    "n": {"quick": 900, "thorough": 20000},
+    "harness_args": lambda tier: (["-confirm-ms", "20000", "-shrink-calls", "60"] if tier == "quick"
                                   else ["-confirm-ms", "120000", "-shrink-calls", "400"]),
     "harness_timeout": 20000,
     "shard": 250,
+    "tie_codes": (),
     "trusted_base": [
         "x/net/html parsing (the parsed document's top-level node kinds are recorded inputs of the root-discovery model)",
         "go/cmd/c01: generator, worker pool (one document per worker call, 10 s in-process watchdog with goroutine dump, 14 s parent watchdog, ulimit -v 3 GiB), recording backend of go/vlib/render, offline URL fetcher (data: URIs through /repo's decoder, a few in-memory files, everything else missing)",
